@@ -9,7 +9,7 @@ from ..model import body_stmts, canon, dotted, kwarg, norm, walk_no_nested
 from . import ilp, nbk
 from .c01 import rule_nullable_index
 from .c04 import array_layout
-from .common import assigned_value, backing_field, conditions_at, count_if, else_part, enclosing, expand_locals, prog, resolve_local, stores_to
+from .common import assigned_value, backing_field, check_unitary_record, conditions_at, count_if, else_part, enclosing, expand_locals, prog, resolve_local, stores_to
 
 AVG = "avg_num_annotations_per_annotator"
 
@@ -20,29 +20,8 @@ def _ret(f) -> Optional[ast.AST]:
 
 
 def rule_call_roles(ctx: Ctx):
-    M = ctx.model
-    for qn, kern in (("AbstractDissimilarity.compute_disorder", "_compute_alignment_disorders"),
-                     ("AbstractDissimilarity.valid_alignments", "_get_all_valid_alignments")):
-        f = ctx.fn(qn, "R-C03-2")
-        sn = f.self_name
-        calls = [c for c in walk_no_nested(f.node) if isinstance(c, ast.Call) and norm(c.func) in (f"{sn}.{kern}", f"AbstractDissimilarity.{kern}")]
-        if len(calls) != 1:
-            ctx.undecided("R-C03-2", f, None, f"call of {kern} not found", key=f"roles:{kern}")
-            continue
-        c = calls[0]
-        k = M.functions[f"AbstractDissimilarity.{kern}"]
-        bound = {p: a for p, a in zip(k.params, c.args)}
-        bound.update({kw.arg: kw.value for kw in c.keywords})
-        arr = resolve_local(f.node, bound.get(k.params[0]))
-        builder = "_build_arrays_alignment" if kern == "_compute_alignment_disorders" else "_build_arrays_continuum"
-        ok = isinstance(arr, ast.Call) and norm(arr.func) == f"{sn}.{builder}" and norm(arr.args[0]) == f.params[1] and \
-            norm(bound.get(k.params[1])) == f"{sn}.d_mat" and norm(bound.get(k.params[2])) == f"{sn}.delta_empty"
-        ctx.check(ok, "R-C03-2", f, c, f"{kern}(arrays of the argument, self.d_mat, self.delta_empty) in parameter order",
-                  bad_detail=f"kernel arguments do not match its parameters (arrays, d_mat, delta_empty): {[norm(a) for a in c.args]}",
-                  key=f"roles:{kern}")
-        rets = [r for r in walk_no_nested(f.node) if isinstance(r, ast.Return)]
-        okr = len(rets) == 1 and (rets[0].value is c or norm(resolve_local(f.node, rets[0].value)) == norm(c))
-        ctx.check(okr, "R-C03-2", f, rets[0] if rets else None, "the kernel's result is returned unchanged", key=f"ret:{kern}")
+    for m in ("compute_disorder", "valid_alignments"):
+        nbk.check_entry(ctx, "R-C03-2", m)
 
 
 def rule_alignment_level(ctx: Ctx):
@@ -105,23 +84,13 @@ def rule_alignment_level(ctx: Ctx):
     ctx.check(ok, "R-C03-3", a, ifs[0] if ifs else None,
               "mean units per annotator: the continuum's when attached, else (number of real units) / (number of slots)",
               bad_detail="Alignment.avg_num_annotations_per_annotator deviates from continuum.avg... / sum(nb_units)/num_annotators", key="avg")
+    check_unitary_record(ctx, "R-SUP")
     for qn, accepted in (("Continuum." + AVG, {"self.num_units / self.num_annotators"}),
                          ("Continuum.num_units", {"sum((len(units) for units in self._annotations.values()))"}),
                          ("Continuum.num_annotators", {"len(self._annotations)"}),
-                         ("Alignment.num_annotators", {"len(self.unitary_alignments[0].n_tuple)"}),
-                         ("UnitaryAlignment.nb_units", None)):
+                         ("Alignment.num_annotators", {"len(self.unitary_alignments[0].n_tuple)"})):
         g = ctx.fn(qn, "R-SUP")
         r = _ret(g)
-        if accepted is None:
-            # number of slots whose unit is not None, in any counting spelling
-            ci = count_if(r) if r is not None else None
-            if ci is None:
-                ctx.undecided("R-SUP", g, r, f"{qn}: not a recognised counting expression (not a verdict)", key="accessor")
-            else:
-                ctx.check(ci[0] in (f"{g.self_name}._n_tuple", f"{g.self_name}.n_tuple") and ci[1] == "E[1] is not None", "R-SUP", g, r,
-                          f"{qn} counts the slots of the n-tuple whose unit is not None",
-                          bad_detail=f"{qn} counts the elements of `{ci[0]}` with `{ci[1]}` instead of the slots of the n-tuple whose unit is not None", key="accessor")
-            continue
         got = canon(r) if r is not None else None
         if got is not None and g.self_name != "self":
             got = got.replace(g.self_name + ".", "self.")
@@ -320,14 +289,14 @@ def run(ctx: Ctx):
     ctx.assumptions += ["numba semantics of the kernel", "d_mat symmetric (C04)"]
     array_layout(ctx, "R-C03-0")
     nbk.check_sentinel_producer(ctx, "R-C03-0")
-    nbk.check_pair_kernel(ctx, {k: "R-C03-1" for k in ("zero-init", "outer", "pair-domain", "empty-test", "empty-cost", "real-cost", "normalisation")})
-    ctx.floor("R-C03-1", 7, "slots of the pair kernel")
     rule_call_roles(ctx)
+    nbk.check_pair_kernel(ctx, {**{k: "R-C03-1" for k in ("zero-init", "outer", "pair-domain", "empty-test", "empty-cost", "real-cost", "normalisation")}, "entry": "R-C03-2"})
+    ctx.floor("R-C03-1", 7, "slots of the pair kernel")
     rule_alignment_level(ctx)
     for qn, cls in (("Continuum.get_best_alignment", "Alignment"), ("Continuum.get_best_soft_alignment", "SoftAlignment")):
         F = ilp.analyse(ctx, qn, "R-C03-4")
         ilp.check_decoding(ctx, F, {"ua-disorder": "R-C03-4", "cached": "R-C03-4", "same-ids": "R-C03-4"}, cls)
-    nbk.check_candidates(ctx, {"final-normalise": "R-C03-4", "c2n": "R-C03-4"})
+    nbk.check_candidates(ctx, {"final-normalise": "R-C03-4", "c2n": "R-C03-4", "entry": "R-C03-2"})
     rule_fast_cache(ctx)
     rule_kinds(ctx)
     n = rule_nullable_index(ctx, "R-C03-6", ["Alignment.compute_disorder", "SoftAlignment.compute_disorder", "UnitaryAlignment.compute_disorder"],
